@@ -303,6 +303,40 @@ register("C06",
          "TLA+ exact operational model checked exhaustively by TLC + polygons replayed into the implementation + TLC trace "
          "validation of grids against an independent brute-force oracle", "DESIGN.md §4 C06")
 
+# later strengthenings (after the two rounds of seeded changes, DESIGN 11.8), appended to the level text
+EXTRA = {
+    "C01": " Level differences up to 495 kJ/mol (just below the cap) are covered by records whose entries are logged as mantissa and "
+           "exponent (m * 2^e / 36) and compared exactly by SqraOps!QWide; shift invariance is also tried with offsets of +-tens of "
+           "thousands of kJ/mol.",
+    "C02": " Every second grid is first asked for the partial (position-only / orientation-only) matrices of workflow run_grid; the "
+           "total volumes are asked twice; a rotation grid with faces below 1e-5 (randomQ_44) is part of the plan.",
+    "C03": " Before the checked read each grid goes through a getter history: the documented numerical estimate of the areas is "
+           "asked first (odd N) or after the exact areas (even N), every matrix is asked twice, and for N divisible by 3 a caller "
+           "converts the handed-out matrices and areas in place (sound on the pinned tree, whose getters hand out fresh objects).",
+    "C04": " Beyond the brute-force bound (randomQ_60, randomQ_84; thorough: every 8th N to 124, and 150) structure-only records "
+           "check that every getter answers, symmetry, empty diagonal, one pattern, positivity and that every stored distance is "
+           "the sign-folded angle of the two quaternions. Face areas are compared at 1e-8 absolute.",
+    "C05": " Every getter is asked twice on the same PositionGrid; the second answer is the checked one.",
+    "C06": " The polygon inputs are additionally replayed at several sizes (embedding scales down to 1e-4).",
+    "C07": " For rotation grids a caller first flips the half array handed out by the default getter in place (a copy on the pinned "
+           "tree); the grid read afterwards is the checked one.",
+    "C08": " Getters now include the convex hulls with and without helper points and the polytope nodes; error classes are "
+           "compared as values.",
+    "C09": " The array is asked repeatedly before the checked read (single-radius and single-direction grids included).",
+    "C10": " Generator frames are also held (not consumed one by one) before comparison, and the PtWriter path is run with "
+           "uncentred molecule files of different centres.",
+    "C13": " For every second input of the cut_and_merge enumeration ONE SQRA object serves all nine limit settings, limited "
+           "calls first.",
+    "C14": " The grid object is also asked for the partial matrices of workflow run_grid before / between the full ones (event "
+           "Inspect, stuttering in the pipeline model), and the second rate build uses energies with a common offset of "
+           "-25000 .. +30000 kJ/mol.",
+    "C15": " For N = 1 mod 3 the plain (vertex-only) hulls of the double-cover diagram are asked before the volumes.",
+    "C18": " The quick tier now subdivides cube and icosahedron four times (1538 / 2562 nodes).",
+}
+for _pid, _txt in EXTRA.items():
+    CHECKS[_pid]["level_claimed"]["text"] += _txt
+CHECKS["C04"]["level_note"] = CHECKS["C04"]["level_note"].replace("face areas compared at 1e-5 absolute; N <= 60", "face areas compared at 1e-8 absolute; brute-force complex for N <= 60, structure-only beyond")
+
 ALL = [f"C{i:02d}" for i in range(1, 21)]
 
 
